@@ -598,6 +598,13 @@ def gen_message_stream(rng, wire, sid, client, malformed=0.0):
             out += frame(0, b"")
     if rng.random() < 0.3:
         out += frame(1, wire.block(sid, rng.choice(TRAILER_POOL)))
+        r = rng.random()
+        if r < 0.15:          # nothing but ignored frames may follow the trailers
+            out += frame(1, wire.block(sid, TRAILER_POOL[0]))
+        elif r < 0.3:
+            out += frame(0, b"late")
+        elif r < 0.4:
+            out += frame(0x21, b"")
     if rng.random() < malformed:
         out = mutate(rng, out)
     return out
